@@ -37,7 +37,8 @@ import (
 
 type propDef struct {
 	ID        string
-	Harness   string // "lib" or app name
+	Harness   string   // "lib" or app name
+	Also      []string // further harness binaries that serve the same property
 	Quick     int    // runs
 	Thorough  int
 	Batch     int
@@ -344,6 +345,7 @@ type violation struct {
 	EventHash uint64   `json:"event_hash"`
 	Reruns    int      `json:"minimise_reruns"`
 	OrigCells int      `json:"orig_cells"`
+	Harness   string   `json:"harness"`
 }
 
 type summary struct {
@@ -386,6 +388,7 @@ type replayFile struct {
 	EventHash uint64   `json:"event_hash"`
 	TreeFP    string   `json:"tree_fingerprint"`
 	Engine    string   `json:"engine"`
+	Harness   string   `json:"harness"`
 	Scenario  any      `json:"scenario,omitempty"`
 	Faults    any      `json:"faults,omitempty"`
 	Schedule  []string `json:"schedule_and_events,omitempty"`
@@ -509,7 +512,10 @@ func findProp(id string) *propDef {
 	return nil
 }
 
+func (p *propDef) harnessList() []string { return append([]string{p.Harness}, p.Also...) }
+
 type batchResult struct {
+	harness string
 	sum    *summary
 	exit   int
 	stderr string
@@ -517,7 +523,8 @@ type batchResult struct {
 }
 
 // runWorkers executes `total` runs in batches over W parallel worker processes.
-func runWorkers(bin string, p *propDef, tier string, seed uint64, total, batch, wallS int, scratch string, extraEnv map[string]string) ([]batchResult, float64) {
+func runWorkers(bin string, p *propDef, tier string, seed uint64, total, batch, wallS int, scratch string, fromOffset int) ([]batchResult, float64) {
+	var extraEnv map[string]string
 	W := 16
 	if v := os.Getenv("VSIM_WORKERS"); v != "" {
 		W, _ = strconv.Atoi(v)
@@ -558,7 +565,7 @@ func runWorkers(bin string, p *propDef, tier string, seed uint64, total, batch, 
 				if remain < 1 {
 					remain = 1
 				}
-				env := map[string]string{"VSIM_PROP": p.ID, "VSIM_TIER": tier, "VERIF_SEED": strconv.FormatUint(seed, 10), "VSIM_FROM": strconv.Itoa(b * batch),
+				env := map[string]string{"VSIM_PROP": p.ID, "VSIM_TIER": tier, "VERIF_SEED": strconv.FormatUint(seed, 10), "VSIM_FROM": strconv.Itoa(fromOffset + b*batch),
 					"VSIM_COUNT": strconv.Itoa(cnt), "VSIM_STRIDE": "1", "VSIM_OUT": out, "VSIM_WALL_S": strconv.Itoa(remain), "VSIM_TMP": runDir,
 					"VSIM_WATCHDOG_DUMP": dump, "VSIM_SAMPLES": "1"}
 				if tier == "thorough" {
@@ -622,8 +629,7 @@ func runCheck(id, tier string) int {
 	evPath := filepath.Join(verifDir, "evidence", id+".json")
 	os.MkdirAll(filepath.Dir(evPath), 0o755)
 	os.Remove(evPath)
-	dir, binfo := ensureBuilt([]string{p.Harness}, false)
-	bin := filepath.Join(dir, p.Harness+".test")
+	dir, binfo := ensureBuilt(p.harnessList(), false)
 	scratch, err := os.MkdirTemp("", "vsim-run-")
 	if err != nil {
 		die(2, "mktemp: %v", err)
@@ -641,7 +647,24 @@ func runCheck(id, tier string) int {
 		wall, _ = strconv.Atoi(v)
 	}
 	known := loadKnown()
-	results, simWall := runWorkers(bin, p, tier, seed, total, p.Batch, wall, scratch, nil)
+	var results []batchResult
+	simWall := 0.0
+	hl := p.harnessList()
+	for hi, h := range hl {
+		sub := filepath.Join(scratch, h)
+		os.MkdirAll(sub, 0o755)
+		rs, w := runWorkers(filepath.Join(dir, h+".test"), p, tier, seed, total/len(hl), p.Batch, wall/len(hl), sub, hi*10000000)
+		for i := range rs {
+			rs[i].harness = h
+			if rs[i].sum != nil {
+				for j := range rs[i].sum.Violations {
+					rs[i].sum.Violations[j].Harness = h
+				}
+			}
+		}
+		results = append(results, rs...)
+		simWall += w
+	}
 
 	// merge
 	agg := &summary{Probes: map[string]int{}, Faults: map[string]int{}, FaultRuns: map[string]int{}, Strategies: map[string]int{}, Verdicts: map[string]int{}, ClassCounts: map[string]int{}}
@@ -733,11 +756,11 @@ func runCheck(id, tier string) int {
 		}
 		seenClass[v.Class] = true
 		rf := replayFile{Property: id, Class: v.Class, Msg: v.Msg, Tier: tier, CheckSeed: seed, RunIdx: v.RunIdx, RunSeed: v.Seed, Scen: v.Scen, Dyn: v.Dyn,
-			EventHash: v.EventHash, TreeFP: binfo.Fingerprint, Engine: "vsim-1",
+			EventHash: v.EventHash, TreeFP: binfo.Fingerprint, Engine: "vsim-1", Harness: v.Harness,
 			Minimise: fmt.Sprintf("%d tape cells before, %d after, %d re-runs", v.OrigCells, len(v.Scen)+len(v.Dyn), v.Reruns)}
 		tmpRF := filepath.Join(scratch, "replay-in.json")
 		writeJSON(tmpRF, rf)
-		res, code, errText := replayOnce(bin, p, tmpRF, scratch)
+		res, code, errText := replayOnce(filepath.Join(dir, v.Harness+".test"), p, tmpRF, scratch)
 		if code != 0 || res == nil {
 			die(2, "fresh-process replay of a %s violation failed to run: %s", v.Class, errText)
 		}
@@ -916,13 +939,16 @@ func replayCmd(path string) int {
 	if p == nil {
 		die(2, "unknown property %s", rf.Property)
 	}
-	dir, binfo := ensureBuilt([]string{p.Harness}, false)
+	if rf.Harness == "" {
+		rf.Harness = p.Harness
+	}
+	dir, binfo := ensureBuilt([]string{rf.Harness}, false)
 	scratch, err := os.MkdirTemp("", "vsim-replay-")
 	if err != nil {
 		die(2, "mktemp: %v", err)
 	}
 	defer os.RemoveAll(scratch)
-	res, code, errText := replayOnce(filepath.Join(dir, p.Harness+".test"), p, path, scratch)
+	res, code, errText := replayOnce(filepath.Join(dir, rf.Harness+".test"), p, path, scratch)
 	if code != 0 || res == nil {
 		die(2, "replay failed to run: %s", errText)
 	}
